@@ -27,7 +27,7 @@ MAXTASKS = 20
 
 
 def bounds(tier):
-    return {"programs": "one-instruction programs of all classes, all L=2 skeletons over the alphabet" + ("" if tier == "quick" else ", L=3 over the reduced alphabet"), "toy_steps": 2 if tier == "quick" else 3, "reload_pairs": "all ordered pairs of the text list, 3 cache configurations"}
+    return {"programs": "one-instruction programs of all classes, all L=2 skeletons over the alphabet" + ("" if tier == "quick" else ", L=3 over the reduced alphabet"), "toy_steps": 2, "reload_pairs": "all ordered pairs of the text list, 3 cache configurations"}
 
 
 def claim_same(e, tag, A, B):
